@@ -6,7 +6,6 @@ import (
 	"math/big"
 	"strings"
 
-	"github.com/nspcc-dev/neo-go/pkg/crypto/keys"
 	"github.com/nspcc-dev/neo-go/pkg/io"
 	"github.com/nspcc-dev/neo-go/pkg/smartcontract"
 	"github.com/nspcc-dev/neo-go/pkg/smartcontract/scparser"
@@ -32,6 +31,25 @@ func pushedObs(script []byte) string {
 			return "err"
 		}
 		return v.String()
+	})
+}
+
+// int64Obs: decode a script that should consist of one integer push with GetInt64FromInstr.
+func int64Obs(script []byte) string {
+	return hx.Safe(func() string {
+		if len(script) == 0 {
+			return "err"
+		}
+		ctx := scparser.NewContext(script, 0)
+		op, param, err := ctx.Next()
+		if err != nil || ctx.NextIP() != len(script) {
+			return "err"
+		}
+		v, err := scparser.GetInt64FromInstr(scparser.Instruction{Op: op, Param: param})
+		if err != nil {
+			return "err"
+		}
+		return fmt.Sprint(v)
 	})
 }
 
@@ -120,6 +138,95 @@ func famEmit(c *ctx) {
 		s = []byte{byte(0x0c + r.Intn(0x18))}
 	}
 	c.line("pushed "+hx.Hex(s), pushedObs(s))
+	c.line("int64of "+hx.Hex(s), int64Obs(s))
+	// emit.Bytes at the PUSHDATA1/2/4 boundaries
+	if r.Chance(1, 4) {
+		ls := []int{0, 1, 33, 75, 76, 254, 255, 256, 257, 300}
+		l := ls[r.Intn(len(ls))]
+		if r.Chance(1, 12) {
+			l = 65534 + r.Intn(4)
+		}
+		data := r.Bytes(l)
+		w := io.NewBufBinWriter()
+		emit.Bytes(w.BinWriter, data)
+		out := w.Bytes()
+		c.line("emitbytes "+hx.Hex(data), hx.Hex(out))
+		func() {
+			defer func() {
+				if e := recover(); e != nil {
+					c.fail("emit-bytes-pushes", "running emit.Bytes(%d bytes) panicked: %v", l, e)
+				}
+			}()
+			v := vm.New()
+			v.LoadScript(out)
+			if err := v.Run(); err != nil || v.Estack().Len() != 1 {
+				c.fail("emit-bytes-pushes", "emit.Bytes(%d bytes): running it fails: %v", l, err)
+				return
+			}
+			if got := v.Estack().Pop().Bytes(); !bytes.Equal(got, data) {
+				c.fail("emit-bytes-pushes", "emit.Bytes(%d bytes) pushes %d other bytes", l, len(got))
+			}
+		}()
+		c.o.Count(fmt.Sprintf("emit:bytes-len-%d", l))
+	}
+	// GetInt64FromInstr on wide pushes: a 64-bit value (any sign bit) under zero / non-zero / sign-extended upper bytes
+	{
+		k := 3 + r.Intn(3)
+		p := make([]byte, 1<<uint(k))
+		copy(p, r.Bytes(8))
+		switch r.Intn(4) {
+		case 0:
+			p[7] |= 0x80
+		case 1:
+			p[7] &= 0x7f
+		}
+		if r.Chance(1, 3) {
+			for i := 1; i < 8; i++ {
+				if r.Bool() {
+					p[i] = 0
+				}
+			}
+		}
+		if len(p) > 8 {
+			switch r.Intn(4) {
+			case 0: // sign-extended
+				for i := 8; i < len(p); i++ {
+					p[i] = 0xff
+				}
+			case 1:
+				p[8+r.Intn(len(p)-8)] = byte(1 + r.Intn(255))
+			}
+		}
+		w := append([]byte{byte(k)}, p...)
+		obs := int64Obs(w)
+		c.line("int64of "+hx.Hex(w), obs)
+		if obs != "err" {
+			// what it returns must be what the VM pushes
+			if got, err := vmPush(w); err != nil || got.String() != obs {
+				c.fail("int64-of-instr", "GetInt64FromInstr(%x) = %s, the VM pushes %v (err %v)", w, obs, got, err)
+			}
+			c.o.Count("emit:int64of-ok")
+		} else {
+			c.o.Count("emit:int64of-err")
+		}
+	}
+}
+
+func bucket(n int) string {
+	switch {
+	case n <= 8:
+		return "01-08"
+	case n <= 14:
+		return "09-14"
+	case n <= 18:
+		return fmt.Sprintf("%02d", n)
+	case n <= 125:
+		return "19-125"
+	case n <= 130:
+		return "126-130"
+	default:
+		return "1022-1026"
+	}
 }
 
 func joinKeys(ks [][]byte) string {
@@ -160,11 +267,17 @@ func msParse(c *ctx, script []byte) (int, [][]byte, bool) {
 func famScript(c *ctx) {
 	r := c.r
 	n := r.Range(1, 8)
-	switch r.Intn(10) {
-	case 0:
-		n = r.Range(15, 18) // PUSH16 / PUSHINT8 boundary of the count
-	case 1:
+	switch r.Intn(14) {
+	case 0, 1:
+		n = r.Range(15, 18) // PUSH15 / PUSHINT8 boundary of the count (and PUSH16, which emit.Int never writes)
+	case 2:
 		n = r.Range(126, 130) // PUSHINT8 / PUSHINT16 boundary
+	case 3:
+		n = r.Range(9, 40)
+	case 4:
+		if r.Chance(1, 12) {
+			n = r.Range(1022, 1026)
+		}
 	}
 	m := r.Range(1, n)
 	switch r.Intn(8) {
@@ -177,43 +290,21 @@ func famScript(c *ctx) {
 	case 3:
 		m = -1
 	}
-	pubs := make(keys.PublicKeys, n)
-	for i := range pubs {
-		pubs[i] = c.pool.priv[r.Intn(len(c.pool.priv))].PublicKey()
-	}
-	var script []byte
-	obs := hx.Safe(func() string {
-		s, err := smartcontract.CreateMultiSigRedeemScript(m, pubs)
-		if err != nil {
-			return "err"
+	c.o.Count(fmt.Sprintf("script:n=%s", bucket(n)))
+	input := genKeyList(c, n, true)
+	script := buildSorted(c, m, input)
+	cmpLines(c, input, 3)
+	if script != nil && !hasInf(input) && r.Chance(1, 3) {
+		// the old form of the op: the keys in the emitted order
+		pubs := input.Copy()
+		_, _ = smartcontract.CreateMultiSigRedeemScript(m, pubs)
+		flat := []byte{}
+		for _, p := range pubs {
+			flat = append(flat, p.Bytes()...)
 		}
-		script = s
-		return hx.Hex(s)
-	})
-	// the builder sorts its argument in place: the model gets the keys in the emitted order
-	flat := []byte{}
-	sorted := make([][]byte, n)
-	for i, p := range pubs {
-		sorted[i] = p.Bytes()
-		flat = append(flat, sorted[i]...)
+		c.line(fmt.Sprintf("msbuild %d %s", m, hx.Hex(flat)), hx.Hex(script))
 	}
-	c.line(fmt.Sprintf("msbuild %d %s", m, hx.Hex(flat)), obs)
-	valid := m >= 1 && m <= n
-	if (obs != "err") != valid {
-		c.fail("script-build-range", "CreateMultiSigRedeemScript(%d of %d) err=%v", m, n, obs == "err")
-	}
-	if obs != "err" && obs != "panic" {
-		pm, pks, ok := msParse(c, script)
-		if !ok || pm != m || len(pks) != n {
-			c.fail("script-parse-build", "ParseMultiSigContract(CreateMultiSigRedeemScript(%d of %d)) = %d, %d keys, ok=%v", m, n, pm, len(pks), ok)
-		} else {
-			for i := range pks {
-				if !bytes.Equal(pks[i], sorted[i]) {
-					c.fail("script-parse-build", "key %d differs after build+parse", i)
-					break
-				}
-			}
-		}
+	if script != nil {
 		// damaged scripts
 		mut := append([]byte{}, script...)
 		switch r.Intn(7) {
@@ -236,6 +327,12 @@ func famScript(c *ctx) {
 		}
 		msParse(c, mut)
 	}
+	craftScript(c)
+	craftScript(c)
+	var flat8 []byte
+	if len(input) > 0 {
+		flat8 = input[0].Bytes()
+	}
 	// single-signature contract
 	pk := c.pool.priv[r.Intn(len(c.pool.priv))].PublicKey()
 	vs := pk.GetVerificationScript()
@@ -253,5 +350,5 @@ func famScript(c *ctx) {
 	if k, ok := scparser.ParseSignatureContract(pk.GetVerificationScript()); !ok || !bytes.Equal(k, pk.Bytes()) {
 		c.fail("script-sig-parse-build", "ParseSignatureContract(GetVerificationScript(%x)) = %x ok=%v", pk.Bytes(), k, ok)
 	}
-	c.o.Seen(fmt.Sprintf("ms/%d/%d/%x", m, n, flat[:8]))
+	c.o.Seen(fmt.Sprintf("ms/%d/%d/%x", m, n, flat8))
 }
